@@ -291,6 +291,20 @@ ProcedureEqualsDefinition(t, nord, xs) ==
 MaskExactlyOutside(t, nord, xs) ==
   \A a \in 1..Len(xs) : MaskOf(t, nord, xs[a]) = ~(QLt(xs[a], Lo(t, nord)) \/ QLt(Hi(t, nord), xs[a]))
 
+(* ---- points a hair outside / inside the ends of the breakpoint range ---- *)
+(* "False exactly for the points outside that range": a point 2^-26 (less than single-precision  *)
+(* rounding of an end breakpoint of magnitude >= 1) or 2^-12 beyond an end is outside, the same  *)
+(* distance inside is inside.  Only the mask is specified for these probes (their basis values   *)
+(* have denominators beyond 32 bits).                                                             *)
+Tiny == <<1, 67108864>>
+Small == <<1, 4096>>
+EndProbes(t, nord) ==
+  LET lo == Lo(t, nord)
+      hi == Hi(t, nord)
+  IN << QSub(lo, Tiny), lo, QAdd(lo, Tiny), QSub(hi, Tiny), hi, QAdd(hi, Tiny),
+        QSub(lo, Small), QAdd(lo, Small), QSub(hi, Small), QAdd(hi, Small) >>
+EndMask(t, nord) == LET E == EndProbes(t, nord) IN Tup([a \in 1..Len(E) |-> MaskOf(t, nord, E[a])])
+
 (***************************************************************************)
 (* Part 4 - representations of abscissae and breakpoints                   *)
 (***************************************************************************)
